@@ -260,6 +260,10 @@ def h_window(cname, src, k):
             b = K.bytes('b', k)
             data = O.empty()
             data.frombytes(b)
+        elif src == 'filename':
+            from kit import files as F
+            fn, data = F.make_file(K, 'w15', k)
+            b = None
         elif src == 'bytesio':
             import io
             content = bytes((0xa5, 0x3c, 0x0f, 0xf1)[:k])       # a BytesIO holds concrete bytes (C level); offsets and lengths are symbolic
@@ -271,7 +275,11 @@ def h_window(cname, src, k):
             b = data.copy()
         off = K.opt_int('offset')
         ln = K.opt_int('length')
-        if src == 'bytesio':
+        if src == 'filename':
+            r = call(lambda: cls(filename=fn, length=ln, offset=off))
+            if not K.symbolic:
+                F.cleanup()
+        elif src == 'bytesio':
             r = call(lambda: cls(io.BytesIO(content), length=ln, offset=off))
         else:
             r = call(lambda: cls(**{src: b}, length=ln, offset=off))
@@ -318,6 +326,11 @@ def h_array_reject(dtype, w, signed, how):
     return h
 
 
+def _install_file_fakes():
+    from kit import files as F
+    F.install_fakes()
+
+
 def conditions(tier):
     q = tier == 'quick'
     conds = []
@@ -355,9 +368,10 @@ def conditions(tier):
         for how in ('setitem', 'slice-step1', 'slice-ext', 'slice-ext-neg', 'slice-ext-count', 'extend', 'append', 'insert', 'init'):
             add(f'C15.array-reject[{dtype},{how}]', h_array_reject(dtype, w, signed, how), f'all data of 4 items x every out-of-range Python int (and an in-range value set before it in the same call)',
                 ['bitstring.array_:Array.__setitem__', 'bitstring.array_:Array.extend', 'bitstring.array_:Array.append', 'bitstring.array_:Array.insert', 'bitstring.array_:Array._create_element'], dtype=dtype)
-    for src in ('bytes', 'bitarray', 'bytesio'):
+    for src in ('bytes', 'bitarray', 'bytesio', 'filename'):
         for k in (([0, 2] if src != 'bytesio' else [3]) if q else [0, 1, 2, 3]):
             for c in (['Bits'] if q else ['Bits', 'BitStream']):
-                add(f'C15.window[{c},{src},k={k}]', h_window(c, src, k), f'all {k}-byte sources x every Python int offset and length (or None)',
-                    ['bitstring.bits:Bits._setbytes_with_truncation', 'bitstring.bits:Bits._setbitarray', 'bitstring.bits:Bits._initialise'], k=k)
+                conds.append(Cond(f'C15.window[{c},{src},k={k}]', h_window(c, src, k), f'all {k}-byte sources x every Python int offset and length (or None)',
+                                  ['bitstring.bits:Bits._setbytes_with_truncation', 'bitstring.bits:Bits._setbitarray', 'bitstring.bits:Bits._initialise', 'bitstring.bits:Bits._setfile'], {'k': k}, timeout=T,
+                                  setup=(_install_file_fakes if src == 'filename' else None)))
     return conds
